@@ -10,5 +10,5 @@ package exported
 //@   pure
 //@   ensures @top_level_messages r == wrkTx(tx)
 //@   ensures @wrapped_messages_detected [C06] r == wrkTxDeep(tx)
-//@   loop 0: invariant 0 - 1 <= rangeindex && rangeindex < len(msgs) && msgs == txMsgs(tx)
-//@   loop 0: invariant forall j int :: {msgs[j]} 0 <= j && j <= rangeindex ==> !isWrkMsg(msgs[j])
+//@   loop 0: invariant 0 - 1 <= rangeindex && rangeindex < len(txMsgs(tx))
+//@   loop 0: invariant forall j int :: {txMsgs(tx)[j]} 0 <= j && j <= rangeindex ==> !isWrkMsg(txMsgs(tx)[j])
